@@ -356,3 +356,23 @@ def sigma_typed(T, params='iI', local_groups=((1, 'f'), (2, 'F'), (1, 'i'))):
     S.append(Sym('br_table[0]1', 'br_table', arg=((0,), 1), enc=br_table([0], 1)))
     S.append(Sym('return', 'return', enc=RETURN))
     return S, params, locs, T, local_groups
+
+
+def typed_contexts(T, S):
+    """contexts for the typed alphabets: the carried value has type T (i64/f32/f64) while the extra operands are i32, so the branch
+    must move a value between C stack variables of different types and depths"""
+    by = {x.name: x for x in S}
+    cT = lambda: Sym('%s.const' % TNAME[TCH[T]], 'simple', (), (T,), T, 'const')
+    ci = lambda: Sym('i32.const', 'simple', (), ('i',), 'i', 'const')
+    blkT = by['block(%s)' % T]
+    end = by['end']
+    blk = Sym('block', 'block', arg='', enc=block(None))
+    br0 = by['br 0']
+    lset = next(x for x in S if x.kind == 'lset')
+    lget = by['local.get %d' % lset.arg]
+    drop = by['drop']
+    return [
+        ('T-above-i32-inside-block', [blkT, cT(), ci()], [end]),
+        ('i32-below-T-block', [ci(), blkT, cT()], [end, lset, drop, lget]),
+        ('dead-in-block-then-live', [blk, br0], [end, cT()]),
+    ]
